@@ -224,6 +224,14 @@ class Matcher:
     def hoist(self, e):
         """alt{X A.. | X B..} == X alt{A.. | B..} for a common leading fixed-shape element X."""
         out = []
+        # a fixed width nested structure facing an integer of that width in the other branch is that integer
+        for mine, other in ((e.a, e.b), (e.b, e.a)):
+            if mine and other and mine[0].kind == 'nested' and other[0].kind == 'u' and isinstance(other[0].w, int) and \
+                    fixed_size(mine[0], self.ctx) == other[0].w and order_tag(other[0].order, 2) in ('be', ''):
+                u = El('u', w=other[0].w, order=other[0].order, key=mine[0].key, val=mine[0].val, op=mine[0].op)
+                u.conditional = True
+                self.c.expanded[id(mine[0])] = [u]
+                mine[0] = u
         while e.a and e.b and e.a[0].kind in ('u', 'flags', 'const', 'mpint', 'ts') and e.a[0].sig() == e.b[0].sig():
             x, y = e.a[0], e.b[0]
             e.a = e.a[1:]
